@@ -6,12 +6,12 @@ pat="${1:-}"
 for d in selftest/mutants/*${pat}*.diff; do
   name=$(basename "$d" .diff)
   props=$(cat "selftest/mutants/$name.prop")
-  git -C /repo checkout -- . ; git -C /repo apply "/verif/$d" || { echo "$name: APPLY FAILED"; continue; }
+  git -C /repo checkout HEAD -- . ; git -C /repo apply "/verif/$d" || { echo "$name: APPLY FAILED"; continue; }
   for prop in $props; do
     bin/check "$prop" --tier quick > "work/selftest-$name-$prop.log" 2>&1
     rc=$?
     if [ $rc -eq 1 ]; then echo "$name $prop: DETECTED ($(grep -c '^VIOLATION' work/selftest-$name-$prop.log) violation lines)";
     else echo "$name $prop: MISSED rc=$rc"; fi
   done
-  git -C /repo checkout -- .
+  git -C /repo checkout HEAD -- .
 done
